@@ -203,6 +203,13 @@ func IteInt(c bool, a, b int) int {
 	}
 	return b
 }
+// CallSiteConst: under the engine, the integer constant passed as argument `arg`
+// at the occurrence-th static call to `callee` inside function `fn` of the real
+// program (read from its SSA). Natively the value recorded by the engine is used.
+func CallSiteConst(fn, callee string, arg, occurrence int) int64 {
+	return Int64(fmt.Sprintf("callsite:%s:%s:%d:%d", fn, callee, arg, occurrence))
+}
+
 func Param(key, def string) string {
 	load()
 	if v, ok := rf.Params[key]; ok {
